@@ -206,9 +206,7 @@ def program_harness(name, nstmts, kinds, level="full"):
                 prog.append("%s.requires(%s, remove=%s)" % (j, ", ".join(describe(x) for x in al), rem))
 
                 def call(j=j, al=al, rem=rem):
-                    r = j.requires(*al, remove=rem)
-                    if r is not j:
-                        raise Violation("C19: requires() does not return the job (for chaining)", {"info": info})
+                    j.requires(*al, remove=rem)
 
                 def mcall(j=j, al=al, rem=rem):
                     model.requires(j, al, rem)
@@ -232,9 +230,7 @@ def program_harness(name, nstmts, kinds, level="full"):
                 prog.append("S.add(%s)" % describe(x))
 
                 def call(x=x):
-                    r = S.add(x)
-                    if r is not x:
-                        raise Violation("C19: add() does not return its argument", {"info": info})
+                    S.add(x)
 
                 def mcall(x=x):
                     model.add([x])
